@@ -146,6 +146,9 @@ pub struct Args {
     pub scale: f64,
     pub layer: String,
     pub extra: BTreeMap<String, String>,
+    /// Set from a replay file: run only this case index.
+    pub only_case: Option<u64>,
+    pub replay_json: Option<Value>,
 }
 
 impl Args {
@@ -161,6 +164,8 @@ impl Args {
             scale: 1.0,
             layer: "plain".into(),
             extra: BTreeMap::new(),
+            only_case: None,
+            replay_json: None,
         };
         let mut i = 0;
         while i < argv.len() {
@@ -195,7 +200,41 @@ impl Args {
             }
             i += 1;
         }
+        if let Some(p) = &a.replay {
+            if let Ok(txt) = std::fs::read_to_string(p) {
+                if let Ok(v) = serde_json::from_str::<Value>(&txt) {
+                    let rp = v.get("replay").cloned().unwrap_or(Value::Null);
+                    if let Some(c) = rp.get("case").and_then(|x| x.as_u64()) {
+                        a.only_case = Some(c);
+                        if let Some(x) = rp.get("seed").and_then(|x| x.as_u64()) {
+                            a.seed = x;
+                        }
+                        if let Some(x) = rp.get("shard").and_then(|x| x.as_u64()) {
+                            a.shard = x;
+                        }
+                        if let Some(x) = rp.get("nshards").and_then(|x| x.as_u64()) {
+                            a.nshards = x.max(1);
+                        }
+                        if let Some(x) = rp.get("tier").and_then(|x| x.as_str()) {
+                            a.tier = x.to_string();
+                        }
+                        if let Some(x) = rp.get("scale").and_then(|x| x.as_f64()) {
+                            a.scale = x;
+                        }
+                    }
+                    a.replay_json = Some(v);
+                }
+            }
+        }
         a
+    }
+    /// Replay descriptor of case `i` of this shard (regenerated deterministically on replay).
+    pub fn case_replay(&self, i: u64) -> Value {
+        json!({"prop": self.prop, "case": i, "seed": self.seed, "shard": self.shard, "nshards": self.nshards,
+               "tier": self.tier, "scale": self.scale})
+    }
+    pub fn skip(&self, i: u64) -> bool {
+        matches!(self.only_case, Some(o) if o != i)
     }
     pub fn thorough(&self) -> bool {
         self.tier == "thorough"
